@@ -1,4 +1,5 @@
 import PeptVerif.Lemmas.NumSpec
+import PeptVerif.Lemmas.NumText
 /-!
 Helper lemmas for C15 (chemical formula write / parse round trip, additivity, mass).
 Everything here is about the executable model `PeptVerif/Model/Formula.lean`.
@@ -360,7 +361,7 @@ theorem parseComponent_run {ps : List Tok} (h : ∀ t ∈ ps, PlainTok t) :
 
 theorem Num.zero_add (v : Num) : Num.add Num.zero v = v := by
   cases v
-  simp [Num.add, Num.zero, Num.ofInt, Rat.zero_add]
+  simp [Num.add, Num.zero, Num.ofInt]
 
 theorem Num.add_assoc (a b c : Num) : Num.add (Num.add a b) c = Num.add a (Num.add b c) := by
   simp [Num.add, Rat.add_assoc, Bool.or_assoc]
@@ -807,6 +808,21 @@ def msum (T : MassTable) (mono : Bool) : Comp → Rat
   | [] => 0
   | kv :: r => em T mono kv.1 * kv.2.val + msum T mono r
 
+/-- decidable form of `Known` (for concrete tables) -/
+def knownB (T : MassTable) (mono : Bool) (k : Str) : Bool :=
+  match elemMass T mono k with
+  | .ok _ => true
+  | .error _ => false
+
+theorem known_of_all {T : MassTable} {mono : Bool} {c : Comp}
+    (h : c.all (fun kv => knownB T mono kv.1) = true) : ∀ kv ∈ c, ∃ m, elemMass T mono kv.1 = .ok m := by
+  intro kv hkv
+  have := List.all_eq_true.1 h kv hkv
+  unfold knownB at this
+  split at this
+  · next m hm => exact ⟨m, hm⟩
+  · cases this
+
 theorem chemMassComp_known {T : MassTable} {mono : Bool} {c : Comp} (h : ∀ kv ∈ c, Known T mono kv.1) :
     chemMassComp T mono c = .ok (msum T mono c) := by
   induction c with
@@ -822,7 +838,7 @@ theorem msum_dropZeros (T : MassTable) (mono : Bool) (c : Comp) : msum T mono (d
   | cons a c ih =>
     by_cases hz : a.2.isZero = true
     · have h0 : a.2.val = 0 := by simpa [Num.isZero] using hz
-      simp [dropZeros, hz, msum, h0, Rat.mul_zero, Rat.zero_add]
+      simp [dropZeros, hz, msum, h0]
       exact ih
     · simp only [Bool.not_eq_true] at hz
       simp only [dropZeros, List.filter_cons, hz, Bool.not_false, if_true, msum]
@@ -841,7 +857,7 @@ theorem msum_insertBy (T : MassTable) (mono : Bool) (key : Str × Num → Nat) (
 theorem msum_foldl_insertBy (T : MassTable) (mono : Bool) (key : Str × Num → Nat) (l acc : Comp) :
     msum T mono (l.foldl (fun acc x => insertBy key x acc) acc) = msum T mono l + msum T mono acc := by
   induction l generalizing acc with
-  | nil => simp [msum, Rat.zero_add]
+  | nil => simp [msum]
   | cons x l ih =>
     simp only [List.foldl_cons, ih, msum_insertBy, msum]
     rw [Rat.add_comm (em T mono x.1 * x.2.val) (msum T mono l), Rat.add_assoc]
@@ -850,7 +866,7 @@ theorem msum_hillSort (T : MassTable) (mono : Bool) (elems : List Elem) (hill : 
     msum T mono (hillSort elems hill c) = msum T mono c := by
   unfold hillSort
   split
-  · simp [sortBy, msum_foldl_insertBy, msum, Rat.add_zero]
+  · simp [sortBy, msum_foldl_insertBy, msum]
   · rfl
 
 theorem chemMassStr_write {T : MassTable} {mono : Bool} {c : Comp} (elems : List Elem) (hill : Bool)
@@ -986,5 +1002,82 @@ theorem parseChem_write_sep {c : Comp} (elems : List Elem) (hill : Bool) {sep : 
     simp only [parseChem, hb, if_true, splitOn_write x t l hsf]
     rw [splitFold_write (fun kv hkv => (hw.2 kv hkv).2) hw.1 (by simp [keys])]
     rfl
+
+/-! ## the domain of C15 stated without reference to the printed text
+
+`NumWF v` (a Python int, or a float that is a finite decimal) implies `NumOK v` (`Lemmas/NumText.lean`). -/
+
+/-- token of the property's domain: a key the table / the writer knows how to print, an int or finite-decimal count -/
+def DomTok (t : Tok) : Prop := (PlainKey t.1 ∨ IsoKey t.1) ∧ NumWF t.2
+
+/-- composition (Python dict) of the property's domain: distinct keys, every entry a `DomTok` -/
+def DomComp (c : Comp) : Prop := (keys c).Nodup ∧ ∀ kv ∈ c, DomTok kv
+
+theorem DomTok.wf {t : Tok} (h : DomTok t) : WFTok t := ⟨h.1, numOK_of_wf _ h.2⟩
+theorem DomComp.wf {c : Comp} (h : DomComp c) : WFComp c := ⟨h.1, fun kv hkv => (h.2 kv hkv).wf⟩
+
+theorem numWF_int (i : Int) : NumWF (Num.ofInt i) := by
+  refine ⟨fun _ => ?_, fun h => ?_⟩
+  · simp [Num.ofInt]
+  · simp [Num.ofInt] at h
+
+/-- a float count given as `m / 10^s` -/
+theorem numWF_dec (m : Int) (s : Nat) (hs : s ≤ 399) : NumWF ⟨(m : Rat) / ((10 ^ s : Nat) : Rat), true⟩ := by
+  refine ⟨fun h => by simp at h, fun _ => ⟨s, hs, ?_⟩⟩
+  have h : ((m : Rat) / ((10 ^ s : Nat) : Rat)) = Rat.divInt m ((10 ^ s : Nat) : Int) := by
+    rw [Rat.divInt_eq_div]; simp
+  rw [h]
+  have := Rat.den_dvd m ((10 ^ s : Nat) : Int)
+  exact_mod_cast this
+
+/-! ## example data for `Props/C15.lean` -/
+
+/-- `13C`, `C`, `H`, `e`, `D` -/
+def k13C : Str := str% "13C"
+def kC : Str := str% "C"
+def kH : Str := str% "H"
+def kE : Str := str% "e"
+def kD : Str := str% "D"
+def kCe : Str := str% "Ce"
+/-- the float `-1.5` -/
+def numNeg15 : Num := ⟨((-15 : Int) : Rat) / ((10 ^ 1 : Nat) : Rat), true⟩
+/-- tokens with a repeated key: `[13C6]C2H-1.5e-1C3[D2]Ce1` -/
+def exToks : List Tok :=
+  [(k13C, Num.ofInt 6), (kC, Num.ofInt 2), (kH, numNeg15), (kE, Num.ofInt (-1)), (kC, Num.ofInt 3),
+   (kD, Num.ofInt 2), (kCe, Num.ofInt 1)]
+/-- a dict with a zero entry -/
+def exComp : Comp :=
+  [(kH, numNeg15), (k13C, Num.ofInt 6), (kC, Num.ofInt 2), (kCe, Num.ofInt 0), (kE, Num.ofInt (-1)), (kD, Num.ofInt 2)]
+
+theorem exToks_dom : ∀ t ∈ exToks, DomTok t := by
+  intro t ht
+  simp only [exToks, List.mem_cons, List.not_mem_nil, or_false] at ht
+  rcases ht with rfl | rfl | rfl | rfl | rfl | rfl | rfl
+  · exact ⟨.inr (by decide), numWF_int 6⟩
+  · exact ⟨.inl (by decide), numWF_int 2⟩
+  · exact ⟨.inl (by decide), numWF_dec (-15) 1 (by decide)⟩
+  · exact ⟨.inl (by decide), numWF_int (-1)⟩
+  · exact ⟨.inl (by decide), numWF_int 3⟩
+  · exact ⟨.inr (by decide), numWF_int 2⟩
+  · exact ⟨.inl (by decide), numWF_int 1⟩
+
+theorem exComp_dom : DomComp exComp := by
+  refine ⟨by decide, ?_⟩
+  intro t ht
+  simp only [exComp, List.mem_cons, List.not_mem_nil, or_false] at ht
+  rcases ht with rfl | rfl | rfl | rfl | rfl | rfl
+  · exact ⟨.inl (by decide), numWF_dec (-15) 1 (by decide)⟩
+  · exact ⟨.inr (by decide), numWF_int 6⟩
+  · exact ⟨.inl (by decide), numWF_int 2⟩
+  · exact ⟨.inl (by decide), numWF_int 0⟩
+  · exact ⟨.inl (by decide), numWF_int (-1)⟩
+  · exact ⟨.inr (by decide), numWF_int 2⟩
+
+/-- a toy table for the example (the theorem is for every table) -/
+def exTable : MassTable :=
+  { elems := [⟨kC, ⟨12, 0⟩, some ⟨12011, 3⟩, some 0⟩, ⟨kH, ⟨1007825, 6⟩, some ⟨1008, 3⟩, some 1⟩,
+              ⟨k13C, ⟨13003355, 6⟩, none, none⟩, ⟨kD, ⟨2014102, 6⟩, none, none⟩, ⟨kCe, ⟨139905, 3⟩, some ⟨140116, 3⟩, some 20⟩],
+    electron := ⟨548579909, 12⟩, proton := ⟨1007276466, 9⟩, neutron := ⟨1008664915, 9⟩ }
+
 
 end Formula
